@@ -237,6 +237,10 @@ func planClusterNonPushdown(opts *Opts, query *sql.Query) (core.FlatRowSource, e
 			return nil, fmt.Errorf("FROM clause not found!")
 		}
 		indexOfFrom := fromIndexes[0]
+		if indexOfFrom > len(sqlString) {
+			// The text was cut in front of the FROM clause
+			return nil, fmt.Errorf("FROM clause not found!")
+		}
 		sqlString = fmt.Sprintf("%v, %v %v", sqlString[:indexOfFrom], query.HavingSQL, sqlString[indexOfFrom:])
 	}
 
